@@ -333,8 +333,23 @@ def parse_model_data(field: str):
     return {int(x) for x in created.split(",")} if created else set(), ll(fwd), ll(inv)
 
 
+VARIANT = {"call_count": "asis"}   # decided at run time by `decide_variant`
+
+
 def model_request(tab: Table, order: list[int]) -> list[str]:
-    return ["c13.all", ",".join(str(x) for x in order)] + [Table.encode(r) for r in tab.rows]
+    return ["c13.all", VARIANT["call_count"], ",".join(str(x) for x in order)] + [Table.encode(r) for r in tab.rows]
+
+
+def decide_variant(ford, d: Path):
+    """Which CallGraph.add_node does the working tree have?  Observed on the witness of the
+    finding (two procedures calling each other, graph_maxnodes 3): `asis` counts the callees
+    that are roots twice and draws no edge, `fixed` (fixes/C13-callgraph-count.diff) draws both."""
+    files, opts = WITNESSES["C13-callgraph-counts-roots-twice"]
+    with common.quiet():
+        _, gm, _ = build(ford, d, files, opts)
+    _, edges = parse_dot(gm.callgraph.dot.source)
+    VARIANT["call_count"] = "fixed" if edges else "asis"
+    return VARIANT["call_count"]
 
 
 def compare(tab: Table, gm, obs: dict, resp: list[str]) -> list[str]:
@@ -490,8 +505,10 @@ def gen_abs(rng: random.Random, big: bool) -> Abs:
                     p["bound"] = True
                     bcount += 1
                 feat.add("simple-binding")
-                if len(t["binds"]) >= 2 and rng.random() < 0.6:
-                    t["generics"].append((f"g{gcount}", [b for b, _ in t["binds"][:2]]))
+                if rng.random() < 0.6:
+                    ng = 1 if len(t["binds"]) == 1 or rng.random() < 0.3 else 2
+                    feat.add(f"generic-of-{ng}")
+                    t["generics"].append((f"g{gcount}", [b for b, _ in t["binds"][:ng]]))
                     gcount += 1
                     has_generic.add(t["name"])
                     feat.add("generic-binding")
@@ -1237,9 +1254,16 @@ def run(tier: str, seed: int, replay: str | None = None) -> int:
     cases = []
     if replay:
         r = json.loads(Path(replay).read_text())
+        seen = set()
         for c in r.get("cases", []) + r.get("first_disagreements", []):
-            if "files" in c:
-                cases.append((None, c["files"], c.get("opts", {}), "replay"))
+            if "files" in c and common.digest([c["files"], c.get("opts", {})]) not in seen:
+                seen.add(common.digest([c["files"], c.get("opts", {})]))
+                A = None
+                if c.get("abstract"):
+                    A = Abs()
+                    for k, v in c["abstract"].items():
+                        setattr(A, k, set(v) if k == "features" else v)
+                cases.append((A, c["files"], c.get("opts", {}), "replay"))
     else:
         for fid in WITNESSES:
             A = witness_abs(fid)
@@ -1250,10 +1274,13 @@ def run(tier: str, seed: int, replay: str | None = None) -> int:
     try:
         ev_micro, bad_micro = micro_callnodes(ford, drv, rng, n_micro, rep)
         with common.scratch_dir() as d:
+            graphviz.Digraph.pipe = fake_pipe
+            rep.coverage["variant_decided"] = {"CallGraph node counting": decide_variant(ford, d / "v")}
             for k, (A, files, opts, stream) in enumerate(cases):
                 graphviz.Digraph.pipe = real_pipe if k % 8 == 0 else fake_pipe
                 res = run_case(ford, drv, d / "p", A, files, opts)
-                case = {"stream": stream, "index": k, "files": files, "opts": opts}
+                case = {"stream": stream, "index": k, "files": files, "opts": opts,
+                        "abstract": dict(vars(A), features=sorted(A.features)) if A else None}
                 if res["error"]:
                     n_err += 1
                     rep.failing_input(dict(case, why="the real code raised while building the graphs: " + res["error"]), None)
